@@ -508,8 +508,36 @@ def rule_normalise(repo: Repo, rep: Report) -> int:
             detail = "the normalisation block is nested under another condition: it does not run for every configuration"
         wrong_n = len(blocks) == 1 and blocks[0] not in fi.body
         if not ok and len(blocks) == 1 and blocks[0] in fi.body:
+            # first choice: run the whole constructor (module-level constants visible) for every order with normalize set and
+            # measure the table it stores
+            from ..frag import FragRaise, FragReturn, run_fragment
+
+            consts = {st_.targets[0].id: st_.value for st_ in fi.module.tree.body if isinstance(st_, ast.Assign) and len(st_.targets) == 1 and isinstance(st_.targets[0], ast.Name)}
+            whole = None
+            try:
+                for M in ((2, 4, 8, 16, 32, 64) if var == "levels" else (4, 16, 64)):
+                    b_ = M.bit_length() - 1
+                    attrs_ = {"self.order": M, "self._bits_per_symbol": b_, "self.gray_coding": True, "self.normalize": True, "self._k": int(round(M**0.5))}
+                    env_ = run_fragment(fi.body, dict(consts), attrs_, max_steps=900000, materialise=True, funcs={"binary_to_gray": repo.func(UT, "binary_to_gray").node})
+                    tab = env_.get(var)
+                    if not (isinstance(tab, list) and len(tab) == M):
+                        raise Unfoldable("table not produced")
+                    e_ = sum(abs(z) ** 2 for z in tab) / len(tab)
+                    if abs(e_ - 1.0) > 1e-9:
+                        whole = f"for order {M} the stored table has average energy {e_:.6g} instead of 1"
+                        break
+                else:
+                    whole = "ok"
+            except (Unfoldable, FragRaise, FragReturn, TypeError, ValueError, IndexError):
+                whole = None
+            if whole == "ok":
+                ok = True
+                detail += " (unlisted shape; constructor evaluated for every order: unit average energy)"
+            elif whole is not None:
+                wrong_n = True
+                detail += "; " + whole
+        if not ok and not wrong_n and len(blocks) == 1 and blocks[0] in fi.body:
             # semantic evaluation: after the block the sample constellation must have unit average energy
-            from ..frag import run_fragment
 
             try:
                 for sample in ([1.0, -3.0, 3.0, -1.0], [complex(1, 1), complex(-3, 1), complex(3, -3), complex(-1, 3)] if var == "constellation" else [-7.0, -5.0, 5.0, 7.0]):
